@@ -68,11 +68,33 @@ def linform(fn, op, depth=10):
                 return {k: v * a[1] for k, v in b.items()}
             return None
         return None
+    if len(p) == 3 and p[1] == "d:Some" and p[2] == "f:0":
+        # the payload of `a.checked_sub(b)` / `a.checked_add(b)` is exactly a - b / a + b in the variant that carries it
+        c = fn.def_call(l)
+        m = re.search(r"num::<impl (usize|u64)>::checked_(add|sub)$", (c.path or "") if c else "")
+        if m and len(c.args) == 2:
+            a = linform(fn, c.args[0], depth - 1)
+            b = linform(fn, c.args[1], depth - 1)
+            if a is not None and b is not None:
+                return lf_add(a, b, 1 if m.group(2) == "add" else -1)
+        return None
     if len(p) != 1:
         return None
     if 1 <= l <= fn.arg_count:
         return {("l", l): 1}
     if fn.local_name(l):
+        d00 = fn.single_def(l)
+        if d00 and d00[1] != "term" and d00[2]["k"] == "use" and "k" not in d00[2]["a"]:
+            sp00 = op_place(d00[2]["a"])
+            if sp00 and len(sp00) == 3 and sp00[1] == "d:Some" and sp00[2] == "f:0":
+                r00 = linform(fn, d00[2]["a"], depth - 1)
+                if r00 is not None:
+                    return r00
+            if sp00 and len(sp00) == 1 and sp00[0] > fn.arg_count and fn.single_def(sp00[0]) and fn.local_name(sp00[0]):
+                # `let name_len = n;` of a binding that itself names a checked difference / sum: that difference / sum
+                r00 = linform(fn, d00[2]["a"], depth - 1)
+                if r00 is not None and r00 != {("l", sp00[0]): 1}:
+                    return r00
         # a named local is a symbol, unless it merely names a sum/difference computed once (`let frame_len = H + a + b;`)
         d0 = fn.single_def(l)
         if d0 and d0[1] != "term" and d0[2]["k"] == "use" and "k" not in d0[2]["a"]:
